@@ -9,6 +9,7 @@ import (
 
 	"seehuhn.de/go/postscript/funit"
 	"seehuhn.de/go/sfnt/glyph"
+	"seehuhn.de/go/sfnt/opentype/coverage"
 	"seehuhn.de/go/sfnt/opentype/gdef"
 	"seehuhn.de/go/sfnt/opentype/gtab"
 	"verif/harness/fontcmp"
@@ -53,7 +54,10 @@ type listCase struct {
 	undef   int64
 	nontriv int64
 	fired   int64
+	known   int64
 }
+
+const knownGsub8 = "gsub8-forward-order"
 
 func (c *listCase) String() string {
 	var sb strings.Builder
@@ -88,6 +92,13 @@ func (c *listCase) compare(gids []glyph.ID) error {
 		return fmt.Errorf("Apply panicked on %v: %s", gids, pn)
 	}
 	if w, g := render(model.Seq), render(got); w != g {
+		if model.DirectionDependent {
+			alt := refshape.ApplyOpts(c.res.List, c.env.Gdef, c.order, mkSeq(gids, c.env.Gdef, c.gpos), refshape.Options{Gsub8Forward: true})
+			if len(alt.Undefined) == 0 && render(alt.Seq) == g && stats.Known("C06", knownGsub8) {
+				c.known++
+				return nil
+			}
+		}
 		return fmt.Errorf("sequence %v:\n  library:   %s\n  reference: %s", gids, g, w)
 	}
 	if model.Fired > 0 {
@@ -174,7 +185,40 @@ func TestC06Shaping(t *testing.T) {
 		stats.LabelN("shaping", "applications-undefined", c.undef)
 		stats.LabelN("shaping", "applications-rule-fired", c.fired)
 		stats.LabelN("shaping", "applications-nontrivial", c.nontriv)
+		stats.LabelN("shaping", "applications-known-gsub8-order", c.known)
 		labels := append([]string{fmt.Sprintf("kind-%v", c.kind)}, c.res.Classes...)
 		stats.CaseIn("shaping", stats.Hash(c.String(), fmt.Sprint(sub)), c.nontriv > 0, func() string { return c.String() }, labels...)
 	})
+}
+
+// TestC06KnownGsub8 is the committed minimal reproducer of the known finding
+// gsub8-forward-order: reverse chaining single substitution must be applied
+// from the end of the glyph sequence to its start.
+func TestC06KnownGsub8(t *testing.T) {
+	// "B" -> "A" if followed by "A": on B B A the specification (end to start)
+	// gives A A A, forward processing gives B A A.
+	const A, B = glyph.ID(1), glyph.ID(2)
+	ll := gtab.LookupList{{
+		Meta: &gtab.LookupMetaInfo{LookupType: 8},
+		Subtables: []gtab.Subtable{&gtab.Gsub8_1{
+			Input:              lookups.CovTable([]glyph.ID{B}),
+			Lookahead:          []coverage.Table{lookups.CovTable([]glyph.ID{A})},
+			SubstituteGlyphIDs: []glyph.ID{A},
+		}},
+	}}
+	in := func() []glyph.Info {
+		return []glyph.Info{{GID: B, Text: []rune("x")}, {GID: B, Text: []rune("y")}, {GID: A, Text: []rune("z")}}
+	}
+	want := refshape.Apply(ll, nil, []gtab.LookupIndex{0}, in())
+	if !want.DirectionDependent || want.Seq[0].GID != A {
+		t.Fatalf("reference model: %s", render(want.Seq))
+	}
+	got := gtab.NewContext(ll, nil, []gtab.LookupIndex{0}).Apply(in())
+	if render(got) != render(want.Seq) {
+		if stats.Known("C06", knownGsub8) {
+			t.Logf("known finding still present: library %s, specification %s", render(got), render(want.Seq))
+			return
+		}
+		t.Fatalf("GSUB type 8 is not applied end-to-start: library %s, specification %s", render(got), render(want.Seq))
+	}
 }
